@@ -20,7 +20,8 @@ CFG = {
             "faults with valid traffic on two other keep-alive connections; (7) plain bytes, aborted and garbage "
             "handshakes against the TLS listener; (8) tls-stalled-handshake: one or several peers send a prefix of a "
             "ClientHello (0, 1, 3, 5, 6, 11, 40 ... bytes; every prefix in thorough) and stay connected while the "
-            "listener is probed; (9) accept(2) made to fail with EMFILE while a connection waits in the listen "
+            "listener is probed, incl. crowds of 63, 64, 65, 130, 260 peers (thorough also 127..129, 255..257, 520, 1030; a "
+            "crowd that does not fit under RLIMIT_NOFILE is skipped and tagged stalled-peers-wanted:N:skipped); (9) accept(2) made to fail with EMFILE while a connection waits in the listen "
             "queue. After every TLS-port fault a complete TLS handshake (rustls client) + GET /health on a fresh "
             "connection must give 200 within 5 s, besides the plain-bytes liveness probe. After every fault (and every sequence) a well-formed request on a "
             "fresh connection must get 200 within 5 s. The raw bytes the server sent on the faulty connection are "
